@@ -58,6 +58,21 @@ def check(case):
                 ok, lst = call(Cell.from_boc, data)
                 if not ok or len(lst) != 1 or lst[0].hash != parsed.hash or rc.structurally_equal_lib(root_r, lst[0]):
                     return Fail('entry/Cell.from_boc-differs', f'{tag}: {lst!r}')
+            if not minimal:
+                # the less travelled entry points: Builder.from_boc (a list of cells), Boc(...).deserialize(), Boc.from_hex / from_base64
+                from pytoniq_core.boc.deserialize import Boc
+                alts = [('Builder.from_boc', lambda: Builder.from_boc(data)), ('Boc.deserialize', lambda: Boc(data).deserialize())]
+                if fname in ('hex', 'HEX'):
+                    alts.append(('Boc.from_hex', lambda: Boc.from_hex(data).deserialize()))
+                if fname == 'base64':
+                    alts.append(('Boc.from_base64', lambda: Boc.from_base64(data).deserialize()))
+                for ename, thunk in alts:
+                    ok, lst = call(thunk)
+                    if not ok:
+                        return Fail(f'entry/{ename}-raises/{fname}', f'{tag}: {exc_sig(lst)}: {lst!r}')
+                    if not isinstance(lst, list) or len(lst) != 1 or getattr(lst[0], 'hash', None) != parsed.hash or \
+                            rc.structurally_equal_lib(root_r, lst[0]):
+                        return Fail(f'entry/{ename}-differs/{fname}', f'{tag}: {lst!r}'[:300])
             if minimal:
                 continue
             # other entry points
